@@ -22,3 +22,24 @@ def check_repo_import():
     if got != want:
         raise RuntimeError(f's3transfer imported from {got}, expected {want}')
     return got
+
+CURRENT = None  # set by vf.worker: lets a watchdog thread report a fatal verdict when the main thread itself is stuck
+
+
+def fatal_emit(result):
+    """Report ``result`` for the current case from any thread and end the worker (threads cannot be killed)."""
+    import json
+
+    from .events import jsonable
+
+    if CURRENT is None:
+        print('FATAL', json.dumps(jsonable(result), default=repr)[:2000])
+        os._exit(3)
+    result = dict(result)
+    result.pop('fatal', None)
+    CURRENT['emit']({'idx': CURRENT['idx'], 'result': jsonable(result)})
+    try:
+        CURRENT['out'].close()
+    except Exception:
+        pass
+    os._exit(3)
